@@ -37,7 +37,7 @@ type Case struct {
 
 func genCase(t *rapid.T) Case {
 	genOp := rapid.Custom(func(t *rapid.T) Op {
-		op := Op{K: rapid.SampledFrom([]string{"enqueue", "enqueue", "enqueue", "finish", "finish", "finish", "waitidle", "waitidle", "watch", "cancel", "errsend", "probe"}).Draw(t, "k")}
+		op := Op{K: rapid.SampledFrom([]string{"enqueue", "enqueue", "enqueue", "finish", "finish", "finish", "waitidle", "waitidle", "watch", "cancel", "errsend", "errclose", "probe"}).Draw(t, "k")}
 		switch op.K {
 		case "enqueue":
 			op.N = rapid.IntRange(0, 4).Draw(t, "n")
@@ -45,6 +45,8 @@ func genCase(t *rapid.T) Case {
 				op.Nils = rapid.IntRange(1, 1<<op.N-1).Draw(t, "nils")
 			}
 		case "finish", "cancel":
+			op.Pick = rapid.IntRange(0, 5).Draw(t, "pick")
+		case "errclose":
 			op.Pick = rapid.IntRange(0, 5).Draw(t, "pick")
 		case "errsend":
 			op.Pick = rapid.IntRange(0, 5).Draw(t, "pick")
@@ -82,6 +84,7 @@ type observer struct {
 	kind      string // waitidle | watch
 	cancel    context.CancelFunc
 	cancelled bool
+	chClosed  bool
 	errCh     chan error
 	sent      []error
 	returned  bool
@@ -432,11 +435,30 @@ func body(c *sched.Ctl, cs Case, v *ev.Verdict) {
 			o.cancelled = true
 			hm.Unlock()
 			o.cancel()
+		case "errclose":
+			// the error channel is closed while the context is live: documented to be treated
+			// like a cancellation (so the observer is "cancelled" from here on)
+			hm.Lock()
+			var elc []*observer
+			for _, o := range observers {
+				if !o.returned && !o.cancelled && o.errCh != nil && len(o.errCh) == 0 && o.kind == "waitidle" {
+					elc = append(elc, o)
+				}
+			}
+			if len(elc) == 0 {
+				eff = false
+				hm.Unlock()
+				break
+			}
+			oc := elc[op.Pick%len(elc)]
+			oc.cancelled, oc.chClosed = true, true
+			hm.Unlock()
+			close(oc.errCh)
 		case "errsend":
 			hm.Lock()
 			var el []*observer
 			for _, o := range observers {
-				if !o.returned && o.errCh != nil && len(o.errCh) == 0 {
+				if !o.returned && !o.chClosed && o.errCh != nil && len(o.errCh) == 0 {
 					el = append(el, o)
 				}
 			}
